@@ -112,6 +112,7 @@ def profile(name):
         p['p_poke'] = 0.5
         p['ops_w'].update({'work_order': 4, 'create_asset': 1.5, 'reprice_waiting': 2.5})
         p['p_cost_step'] = 0.6
+        p['p_nested_batch'] = 0.6
     elif name == 'records':       # C15
         p['p_maintainer'] = 0.95
         p['p_resources'] = 0.8
@@ -190,7 +191,7 @@ class Gen:
         k = 1 if len(names) == 1 or rng.random() < 0.65 else 2
         req = {}
         for r in rng.sample(names, k):
-            req[r] = rng.choice([1, 1, 1, 2, 0.5])
+            req[r] = rng.choice(self.p.get('res_amounts') or [1, 1, 1, 2, 0.5])
             if self.resources[r] and req[r] > self.resources[r]:
                 req[r] = self.resources[r] if rng.random() < 0.85 else req[r]
         if rng.random() < 0.05:
@@ -436,6 +437,8 @@ class Gen:
                 it['batch'] = [rng.choice([0, 1, 2, 3, 3, 5, 7]) for _ in range(rng.randint(1, 4))]
                 if rng.random() < 0.35:
                     it['batch_sub'] = True      # the generator makes instances of a user-defined subclass of Batch
+                elif rng.random() < p.get('p_nested_batch', 0):
+                    it['batch_nested'] = True   # ... or pallets of boxes (a Batch of Batches)
             self.frontier.append(self.add(it))
         for _ in range(rng.randint(*p['n_stages'])):
             if not self.frontier:
